@@ -45,6 +45,8 @@ func verifCanary(label string, cond bool) {}
 
 // certSource(x): identity of the byte array certificate x was parsed from.
 //@ ufunc certSource(*x509.Certificate) unsafe.Pointer
+// certKey(x): the public key found in certificate x when it was parsed.
+//@ ufunc certKey(*x509.Certificate) interface{}
 // remoteKeyOf(e): the remote public key an asymmetric algorithm verifies signatures with.
 //@ ufunc remoteKeyOf(*EncryptionAlgorithm) *rsa.PublicKey
 // sigCheckedKey(sig) / sigCheckedLen(sig): the key with which, and the length of the message over
@@ -56,7 +58,7 @@ func verifCanary(label string, cond bool) {}
 //@   props C22
 //@   assumed
 //@   assigns nothing
-//@   ensures err == nil ==> result0 != nil && fresh(result0) && certSource(result0) == arr(c)
+//@   ensures err == nil ==> result0 != nil && fresh(result0) && certSource(result0) == arr(c) && certKey(result0) == result0.PublicKey
 //@   ensures err != nil ==> result0 == nil
 
 //@ func Asymmetric
